@@ -164,14 +164,15 @@ def classify(text, res):
         failed.append({"function": fn, "kind": e["msg"], "line": e["line"], "col": e["col"], "text": e["text"]})
     # vacuity twins must fail
     vac_pass = [f["function"] for f in funcs if f["function"].split("::")[-1].startswith("vacuity__") and f["success"]]
-    real_fail = [f["function"] for f in funcs if not f["function"].split("::")[-1].startswith("vacuity__") and not f["success"]]
+    real_fail = [f["function"] for f in funcs if not f["function"].split("::")[-1].startswith(("vacuity__", "finding__")) and not f["success"]]
     r["failed"] = failed
     if real_fail and not failed:
         # failure reported by the breakdown but no diagnostic parsed: still a failure
         for fn in real_fail:
             failed.append({"function": fn, "kind": "verification failed (no diagnostic parsed)", "line": None, "col": None,
                            "text": res["stderr"][-1500:]})
-    if failed:
+    only_findings = bool(failed) and all(str(f.get("function") or "").startswith("finding__") for f in failed)
+    if failed and not only_findings:
         nonsem = [f for f in failed if not any(s in f["kind"] for s in SEMANTIC)]
         if nonsem and len(nonsem) == len(failed):
             r["status"] = "undecided"
@@ -189,5 +190,5 @@ def classify(text, res):
     if len(funcs) - nvac <= 0:
         r["reason"] = "no obligations generated"
         return r
-    r["status"] = "ok"
+    r["status"] = "ok" if not failed else "findings"
     return r
